@@ -5,8 +5,8 @@ CONSTANTS
   UpDowns = {"u"}
   Hists = {"h"}
   Stores = {"s"}
-  MaxCount = 4
-  MaxNet = 2
+  MaxCount = 3
+  MaxNet = 1
   Vals = {1, 2}
   MaxGen = 1
   Threads = {}
